@@ -16,7 +16,7 @@ RULE = ("seeded object populations (token/session x private/public, 9 kinds) on 
         "unlock, remove, opendir, lstat x ordinal 0..11). Before and after each such call every open session's search result and every attribute of every object are read out and the simulated disk is dumped "
         "and decoded; when the call returned an error all three views must be identical (lock files and generation counters excepted), also after a restart. Distinct+non-trivial: (call, defect or fault "
         "kind+position, object token/private, outcome) with the call having failed.")
-PROBES = ["failed_call_compared", "failed_under_fault_compared", "disk_compared", "session_views_compared", "set_template_prefix_case", "create_defect", "generate_defect", "unwrap_bad_blob", "derive_defect", "copy_defect", "destroy_refused", "restart_compared", "fault_fired_and_failed"]
+PROBES = ["db_backend_runs", "failed_call_compared", "failed_under_fault_compared", "disk_compared", "session_views_compared", "set_template_prefix_case", "create_defect", "generate_defect", "unwrap_bad_blob", "derive_defect", "copy_defect", "destroy_refused", "restart_compared", "fault_fired_and_failed"]
 DEATH_IS_VIOLATION = ()
 
 UNKNOWN_ATTR = 0x7FFFFF01
@@ -240,6 +240,9 @@ def gen(seed, tier, index):
     g = GW(seed, "C09", profile="fault" if faulty else "seq")
     r = g.r
     g.max_objs = 9
+    if index % 6 in (4, 5):
+        # configuration stratum ("for both storage backends"): the SQLite object store on the simulated disk (SQLite VFS seam), defects and faults alike
+        g.knobs["conf"]["objectstore.backend"] = "db"
     g.begin()
     for t in g.toks():
         g.s_open(tok=t, rw=True); g.s_login(user=K.CKU_USER, tok=t)
@@ -311,7 +314,7 @@ def disk_view(tree, w):
                 files[fname] = decoder.object_view(attrs, mk) if attrs else "EMPTY"
         ta = getattr(td, "token_attrs", None)
         tokview = {t: v for t, v in ta.items()} if ta else getattr(td, "token_error", "MISSING")
-        others = sorted(n for n in td.files if not n.endswith(".lock") and not n.endswith(".object") and n != "generation")
+        others = sorted(n for n in td.files if not n.endswith(".lock") and not n.endswith(".object") and n != "generation" and not n.endswith("-journal"))
         out[tref] = {"objects": files, "token": tokview, "other_files": others}
     return out
 
@@ -412,7 +415,7 @@ def check(plan, r):
                 st("fault_fired_and_failed"); fault_failed.append((f, fault_ops[k][0]["k"], c_role(fault_ops[k][0]["path"])))
                 # restart-time manifestations cannot be tied to one of several faulted calls by observation; they are attributed to the one that
                 # physically changes file contents (a failed write/ftruncate) if there is one, else to the earliest (documented in DESIGN 10)
-                fault_failed.sort(key=lambda x: 0 if x[1] in ("write", "ftruncate") else 1)
+                fault_failed.sort(key=lambda x: 0 if (x[1] in ("write", "ftruncate") or (x[1] == "unlock" and x[2] in ("database", "journal"))) else 1)      # below SQLite a failed unlock is the one fault after which the commit has nevertheless happened
             if not ok and prev is not None and not restarted:
                 pending = (k, op, ret, prev)
         w.apply(pid, op, ret)
@@ -450,6 +453,13 @@ def check(plan, r):
                 cur.disk = dv
                 finish_snapshot(k)
     r.aux["c09"] = (cov, stats)
+    backend = plan["knobs"].get("conf", {}).get("objectstore.backend", "file")
+    if backend == "db": st("db_backend_runs")
+    rf = [k_ for k_, evs in fault_ops.items() if k_ is not None and any(e.get("k") in ("read", "access", "fstat", "lock") for e in evs)]
+    first_rf = min(rf) if rf else None
+    for v in viols:
+        v["backend"] = backend
+        v["read_fault_before"] = bool(first_rf is not None and isinstance(v.get("op"), int) and v["op"] >= first_rf)
     # one violation per (class, manifestation)
     seen = set(); out = []
     for v in viols:
@@ -465,6 +475,8 @@ def fault_nth(plan, k):
 
 def c_role(path):
     n = path.split("/")[-1]
+    if n == "sqlite3.db": return "database"
+    if n.endswith("-journal"): return "journal"
     return "token.object" if n == "token.object" else "token.lock" if n == "token.lock" else "lock file" if n.endswith(".lock") else "object file" if n.endswith(".object") else "token dir"
 
 def cover(plan, r):
@@ -475,4 +487,4 @@ TECHNIQUE = "deterministic simulation with fault injection: single-defect calls 
 CLAIM = ("Seeded exploration: every object-management, generation, unwrap and derive call is issued with exactly one defect, or without defect but with one injected file-operation error at a cycled position of its "
          "I/O sequence; whenever it returns an error, the search result and every attribute seen by every open session, and the decoded token directory, must equal the snapshot taken before the call, and a restart "
          "must not bring anything new to light. Evidence, not proof.")
-NOTE = "Trusted: the decoder's format specification; snapshots are taken through the API and from the simulator-owned disk. Lock files and generation counters are ignored as the design says. File back end only."
+NOTE = "Trusted: the decoder's format specification; snapshots are taken through the API and from the simulator-owned disk. Lock files and generation counters are ignored as the design says. Both object stores: every third plan runs on the SQLite store over the simulated disk (SQLite VFS seam), with defects and with faults placed on SQLite's own file operations."
